@@ -10,6 +10,8 @@ import (
 	"reflect"
 	"net/http"
 	"sort"
+
+	"k8s.io/apimachinery/pkg/labels"
 	"sync"
 	"time"
 
@@ -245,7 +247,7 @@ func (w *cworld) buildPC(s *ctlSpec) (*builtPC, error) {
 	cc := s.compositeController()
 	// the metrics registry refuses a second collector for the same (controller, hook, url)
 	pc, err := newParentController(w.resources, w.dynClient, dynInformers, vh.NoopRecorder{}, w.mcClient,
-		mclisters.NewControllerRevisionLister(revIndexer), cc, 1,
+		sortedRevLister{mclisters.NewControllerRevisionLister(revIndexer)}, cc, 1,
 		&common.ApplyOptions{FieldManager: "metacontroller", Strategy: strategy}, logr.Discard())
 	if err != nil {
 		return nil, err
@@ -435,4 +437,35 @@ func objKey(o map[string]interface{}) string {
 	ns, _ := md["namespace"].(string)
 	n, _ := md["name"].(string)
 	return fmt.Sprint(o["apiVersion"], "/", o["kind"], "/", ns, "/", n)
+}
+
+// sortedRevLister returns the cached ControllerRevisions in name order. The
+// indexer lists them in Go map order; after an interrupted revision write a
+// child can be claimed by two revisions and the first claimant wins, so the
+// order is an input of the sync: the harness fixes it (and hands the model the
+// same order) instead of leaving it to chance.
+type sortedRevLister struct {
+	mclisters.ControllerRevisionLister
+}
+
+func (l sortedRevLister) List(sel labels.Selector) ([]*v1alpha1.ControllerRevision, error) {
+	ret, err := l.ControllerRevisionLister.List(sel)
+	sort.Slice(ret, func(i, j int) bool {
+		return ret[i].Namespace+"/"+ret[i].Name < ret[j].Namespace+"/"+ret[j].Name
+	})
+	return ret, err
+}
+
+func (l sortedRevLister) ControllerRevisions(ns string) mclisters.ControllerRevisionNamespaceLister {
+	return sortedRevNsLister{l.ControllerRevisionLister.ControllerRevisions(ns)}
+}
+
+type sortedRevNsLister struct {
+	mclisters.ControllerRevisionNamespaceLister
+}
+
+func (l sortedRevNsLister) List(sel labels.Selector) ([]*v1alpha1.ControllerRevision, error) {
+	ret, err := l.ControllerRevisionNamespaceLister.List(sel)
+	sort.Slice(ret, func(i, j int) bool { return ret[i].Name < ret[j].Name })
+	return ret, err
 }
